@@ -992,15 +992,17 @@ class C07(Spec):
     theorems = THEOREMS
     MODEL_OPS = {3301, 3311}    # ops the Coq model answers (others: comparison vacuous, see canon())
     builds = [("default", "dev"), ("default", "release")]
-    level_text = ("A hand-written Gallina model of the tokenizer, the recursive-descent parser (asn/model.rs and asn/*.rs, function "
-                  "for function, fuelled) and the resolver (resolve_scope.rs) is tied to the crate by differential execution of "
-                  "whole module texts (op 3301: the complete resolved Model<Asn<Resolved>> or the error with its token must be "
-                  "equal); independently the crate's dump is confronted with canon(A) computed in Python from the abstract module "
-                  "A each text was printed from. Theorems: PARTIAL -- parse-after-print statements for the sub-languages tag "
-                  "([class] number, optional tag in front of a type), SIZE (fixed / range / extensible, numerals or value references), "
-                  "named numbers / named bits, and INTEGER with named numbers and range (MIN/MAX, references, extensible), numerals "
-                  "abstracted by the decimal parser, the forms the parser rewrites excluded as named classes; one vm_compute witness "
-                  "per deviation class; ENUMERATED, literals, OIDs, imports and the mutually recursive type grammar (components / CHOICE / OF) are covered by the tie only.")
+    level_text = ('A hand-written Gallina model of the tokenizer, the recursive-descent parser (asn/model.rs and asn/*.rs, '
+                  'function for function, fuelled) and the resolver (resolve_scope.rs) is tied to the crate by differential '
+                  'execution of whole module texts (op 3301: the complete resolved Model<Asn<Resolved>> or the error with its '
+                  "token must be equal); independently the crate's dump is confronted with canon(A) computed in Python from the "
+                  'abstract module A each text was printed from. Theorems '
+                  '(Front/{ParseProofs,TypeGrammarProofs,ModuleGrammarProofs}.v): parse-after-print for every sub-language (tags, '
+                  'SIZE, INTEGER ranges, named numbers/bits, ENUMERATED, object identifiers, IMPORTS, the mutually recursive type '
+                  'grammar C07_parse_print_type) and for whole modules (C07_parse_print: parse (print_module m) = denote_module m '
+                  'for every wf_module, outside the forms the parser rewrites, which are excluded as named classes with one '
+                  'vm_compute witness each); literals are _partial (booleans, integers, column-placed strings, even hex, '
+                  "multiple-of-8 bit strings). Printing is over token lists: lexing of the printed text is C13's theorem.")
     rule = ("grammar-based generator of abstract modules (definitions in order: SEQUENCE/SET with tags, OPTIONAL, DEFAULT "
             "literals of each kind, extension markers at every position incl. before the first component and a second "
             "marker; CHOICE/ENUMERATED with numbers and markers; SEQUENCE OF/SET OF; INTEGER with ranges A..B, MIN/MAX, "
